@@ -3,9 +3,12 @@
 From TT Require Import Lib.Base Model.Router Model.StreamDecor Gen.Failfast Spec.C11 Corr.C11 Proof.C11.
 
 (* The imperative model (references into a store of mutable sets, StreamTagger allocating a new
-   set, sinks keeping the reference they were given, everything read at the end of the run)
-   meets the pure per-sink statement, for every decorator tree (any depth and fan-out), every
-   store of caller-owned sets and every history of calls and caller-side mutations.
+   set, sinks keeping the reference they were given; a logged set read at the end of the run, the
+   caller's own objects right after the call) meets the pure per-sink statement, for every
+   decorator tree (any depth and fan-out), every store of caller-owned sets and EVERY history: any
+   sequence of startTestRun / status / stopTestRun calls (no run, several runs through the same
+   decorators, repeated or unmatched start/stop, status calls outside a run) interleaved with the
+   caller changing its own set objects in place and passing the same object again.
    wf: the set objects the caller passes or changes are its own. *)
 Theorem C11_holds : forall i : input, wf i -> spec_okb i (model i) = true.
 Proof. exact model_meets_spec. Qed.
@@ -22,21 +25,20 @@ Theorem C11_once_in_order : forall i, wf i -> forall k o so j pk,
   nth_error (ops i) k = Some o -> nth_error (o_steps (model i)) k = Some so ->
   nth_error (leaves (tree i)) j = Some pk ->
   let now := caller_after (caller i) (firstn k (ops i)) in
-  let fin := caller_after (caller i) (ops i) in
-  nth_error (s_new so) j = Some (expect_new now fin o pk)
-  /\ (snd pk = LSink -> (forall l v, o <> OMutate l v) -> length (expect_new now fin o pk) = 1).
+  nth_error (s_new so) j = Some (expect_new now o pk)
+  /\ (snd pk = LSink -> (forall l v, o <> OMutate l v) -> length (expect_new now o pk) = 1).
 Proof. exact once_in_order. Qed.
 Print Assumptions C11_once_in_order.
 
 (* what the transformed status call is: every field of the caller's call, except ... *)
-Theorem C11_only_own_field : forall now fin p e,
-  let d := expect_event now fin p e in
+Theorem C11_only_own_field : forall now p e,
+  let d := expect_event now p e in
   v_id d = v_id e /\ v_status d = v_status e /\ v_runnable d = v_runnable e /\ v_file d = v_file e
   /\ v_bytes d = v_bytes e /\ v_eof d = v_eof e /\ v_mime d = v_mime e
   /\ v_route d = push_all (queue_codes p) (v_route e)
   /\ (forall k, v_ts e = TsGiven k -> v_ts d = TsGiven k)
   /\ (v_ts e = TsNone -> v_ts d = if existsb is_stamp p then TsFilled else TsNone)
-  /\ (taggers p = [] -> v_tags d = deref fin (v_tags e))
+  /\ (taggers p = [] -> v_tags d = deref now (v_tags e))
   /\ (taggers p <> [] ->
       forall t, In t (match v_tags d with Some v => v | None => [] end)
                 <-> t < tag_universe /\ member_after (taggers p) t (mem t (tags_or_empty now (v_tags e))) = true).
@@ -70,28 +72,66 @@ Theorem C11_independent : forall i1 i2, wf i1 -> wf i2 -> caller i1 = caller i2 
 Proof. exact independent. Qed.
 Print Assumptions C11_independent.
 
+(* startTestRun / stopTestRun are handed on EVERY time: the k-th call of a history, if it is a
+   startTestRun or stopTestRun - of the first run or a later one, repeated, or without its partner -
+   makes every sink log exactly that entry and a StreamFailFast leaf nothing (no decorator keeps a
+   "started"/"stopped" state) *)
+Theorem C11_start_stop_every_time : forall i, wf i -> forall k o so j pk,
+  (o = OStart \/ o = OStop) ->
+  nth_error (ops i) k = Some o -> nth_error (o_steps (model i)) k = Some so ->
+  nth_error (leaves (tree i)) j = Some pk ->
+  nth_error (s_new so) j = Some (match snd pk, o with
+                                 | LSink, OStart => [EStart] | LSink, OStop => [EStop] | _, _ => [] end).
+Proof. exact start_stop_every_time. Qed.
+Print Assumptions C11_start_stop_every_time.
+
+(* what a sink receives depends on the call only BY VALUE: the tags argument enters through what it
+   denotes when the call is made - not through which object carries it, what that object held at
+   earlier calls, or what the caller does to it later.  First for the statement's per-path function,
+   then for the model: two status calls equal by value, in two arbitrary trees and histories
+   (different objects, different pasts), reach sinks below the same decorators as the same call. *)
+Theorem C11_value_only : forall now1 now2 p e1 e2,
+  by_value now1 e1 = by_value now2 e2 -> expect_event now1 p e1 = expect_event now2 p e2.
+Proof. exact value_only. Qed.
+Print Assumptions C11_value_only.
+
+Theorem C11_value_only_model : forall i1 i2, wf i1 -> wf i2 ->
+  forall k1 k2 e1 e2 so1 so2 j1 j2 pk,
+  nth_error (ops i1) k1 = Some (OStatus e1) -> nth_error (ops i2) k2 = Some (OStatus e2) ->
+  nth_error (o_steps (model i1)) k1 = Some so1 -> nth_error (o_steps (model i2)) k2 = Some so2 ->
+  nth_error (leaves (tree i1)) j1 = Some pk -> nth_error (leaves (tree i2)) j2 = Some pk ->
+  by_value (caller_after (caller i1) (firstn k1 (ops i1))) e1 = by_value (caller_after (caller i2) (firstn k2 (ops i2))) e2 ->
+  nth_error (s_new so1) j1 = nth_error (s_new so2) j2.
+Proof. exact value_only_model. Qed.
+Print Assumptions C11_value_only_model.
+
 (* the correspondence compares observations exactly *)
 Theorem C11_obs_eqb : forall a b, obs_eqb a b = true <-> a = b.
 Proof. exact obs_eqb_spec. Qed.
 Print Assumptions C11_obs_eqb.
 
 (* non-vacuity: a copy over a sink, a tagger (over a sink, a nested tagger and a fail-fast) and a
-   timestamping queue; the caller passes its own set, changes it afterwards, passes it again *)
+   timestamping queue; the caller passes its own set, changes it afterwards, passes it again;
+   a repeated stopTestRun and a second, empty run *)
 Example C11_example :
   let e := fun (T : Type) (tags : T) st ts => Evt (Some 1) (Some st) tags true None None false None (Some [3]) ts in
   let i := {| tree := Copy [Sink;
                             Tagger [0] [2] [Sink; Tagger [4] [0] [Sink]; FailFast];
                             Stamp (ToQueue 5 Sink)];
               caller := [[1; 2]];
-              ops := [OStart; OStatus (e _ (TLoc 0) 5 TsNone); OMutate 0 [3]; OStatus (e _ (TLoc 0) 4 (TsGiven 7)); OStop] |} in
+              ops := [OStart; OStatus (e _ (TLoc 0) 5 TsNone); OMutate 0 [3]; OStatus (e _ (TLoc 0) 4 (TsGiven 7)); OStop;
+                      OStop; OStart; OStop] |} in
   wf i
   /\ map s_new (o_steps (model i))
      = [ [[EStart]; [EStart]; [EStart]; []; [EStart]];
-         [[ESt (e _ (Some [3]) 5 TsNone)]; [ESt (e _ (Some [0; 1]) 5 TsNone)]; [ESt (e _ (Some [1; 4]) 5 TsNone)]; [EFired];
-          [ESt (Evt (Some 1) (Some 5) (Some [3]) true None None false None (Some [5; 3]) TsFilled)]];
+         [[ESt (e _ (Some [1; 2]) 5 TsNone)]; [ESt (e _ (Some [0; 1]) 5 TsNone)]; [ESt (e _ (Some [1; 4]) 5 TsNone)]; [EFired];
+          [ESt (Evt (Some 1) (Some 5) (Some [1; 2]) true None None false None (Some [5; 3]) TsFilled)]];
          [[]; []; []; []; []];
          [[ESt (e _ (Some [3]) 4 (TsGiven 7))]; [ESt (e _ (Some [0; 3]) 4 (TsGiven 7))]; [ESt (e _ (Some [3; 4]) 4 (TsGiven 7))]; [];
           [ESt (Evt (Some 1) (Some 4) (Some [3]) true None None false None (Some [5; 3]) (TsGiven 7))]];
+         [[EStop]; [EStop]; [EStop]; []; [EStop]];
+         [[EStop]; [EStop]; [EStop]; []; [EStop]];
+         [[EStart]; [EStart]; [EStart]; []; [EStart]];
          [[EStop]; [EStop]; [EStop]; []; [EStop]] ]
-  /\ map s_caller (o_steps (model i)) = [[[1; 2]]; [[1; 2]]; [[3]]; [[3]]; [[3]]].
+  /\ map s_caller (o_steps (model i)) = [[[1; 2]]; [[1; 2]]; [[3]]; [[3]]; [[3]]; [[3]]; [[3]]; [[3]]].
 Proof. vm_compute. repeat split. Qed.
